@@ -185,10 +185,10 @@ func (cr *c05Run) c5lStmtCase(qy *c05Query, qa string, st [][2]string, path stri
 
 // c5lMixedAggregateCases: a select field that holds an aggregate call NEXT TO a field name (or
 // any term that depends on the pair): `sum(n) + n`.  AggregatePlan.next / batch evaluate such a
-// field once per group by Expr.Execute(NewKVP(nil, nil), ctx): with the cache on, the name finds
-// the value the LAST scanned pair left in the context, with the cache off its definition is
-// evaluated on the nil pair.  Outside the twins (Spec/Group.v's aexpr has no names); judged
-// directly: cache on = cache off, per iteration mode.
+// field once per group (execGroupExpr: ctx.Clear(), Execute on the pair that opened the group;
+// before fix 110650a on the nil pair with the context the LAST scanned pair had left, so that the
+// cache was visible).  Outside the twins (Spec/Group.v's aexpr has no names); judged directly:
+// cache on = cache off, per iteration mode.
 func (cr *c05Run) c5lMixedAggregateCases() {
 	e := cr.e
 	st := [][2]string{{"k00", "1"}, {"k01", "5"}, {"k02", "2"}, {"k03", "7"}, {"k04", "5"}}
